@@ -35,6 +35,10 @@ Remove(i) == /\ i \in Ids
              /\ live' = Restrict(live, Ids \ {i})
              /\ UNCHANGED nextId
              /\ obs' = [op |-> "rem", id |-> i, key |-> live[i], len |-> Cardinality(Ids) - 1]
+\* an attempt to INCREASE a key through decrease_key is refused (ValueError) and must leave the queue as it was
+RefusedDecrease(i, k) == /\ i \in Ids /\ Rank(k) > Rank(live[i])
+                         /\ UNCHANGED <<live, nextId>>
+                         /\ obs' = [op |-> "baddec", id |-> i, key |-> k, len |-> Cardinality(Ids)]
 Clear == /\ live' = << >>
          /\ UNCHANGED nextId
          /\ obs' = [op |-> "clear", len |-> 0]
@@ -42,7 +46,7 @@ Next == /\ nops < MaxOps /\ nops' = nops + 1
         /\ \/ \E k \in Keys : Push(k)
            \/ Clear
            \/ \E i \in Ids : Pop(i) \/ Peek(i) \/ Remove(i)
-           \/ \E i \in Ids, k \in Keys : DecreaseKey(i, k)
+           \/ \E i \in Ids, k \in Keys : DecreaseKey(i, k) \/ RefusedDecrease(i, k)
 Spec == Init /\ [][Next]_vars
 LenOK == obs.len = Cardinality(Ids)
 MinOK == obs.op \in {"pop", "peek"} => \A j \in Ids : Rank(obs.key) <= Rank(live[j])
